@@ -118,16 +118,26 @@ func (w *Writer) initEmpty() error {
 }
 
 func (w *Writer) recoverTail() error {
-	// We need to track the last two commit frames
+	// We track every commit frame we read through. Normally only the last one
+	// needs its CRC validating, but when that fails (torn write) or when stale
+	// frames from an earlier torn write follow the real tail, we walk backwards
+	// until we find a commit whose batch is completely on disk.
 	type commitInfo struct {
 		fh         frameHeader
 		offset     int64
 		crcStart   int64
 		offsetsLen int
+		indexStart uint64
 	}
-	var prevCommit, finalCommit *commitInfo
+	var commits []commitInfo
 
 	offsets := make([]uint32, 0, 32*1024)
+
+	// pendingIndexStart is the start of an index frame seen since the last commit
+	// frame. The segment only counts as sealed if the commit that follows it is
+	// the one we end up accepting.
+	pendingIndexStart := uint64(0)
+	crcStart := int64(0) // First commit includes the file header
 
 	readInfo, err := readThroughSegment(w.wf, func(_ types.SegmentInfo, fh frameHeader, offset int64) (bool, error) {
 		switch fh.typ {
@@ -139,20 +149,19 @@ func (w *Writer) recoverTail() error {
 			// So this segment was sealed! (or attempted) keep track of this
 			// indexStart in case it turns out the Seal actually committed completely.
 			// We store the start of the actual array not the frame header.
-			w.writer.indexStart = uint64(offset) + frameHeaderLen
+			pendingIndexStart = uint64(offset) + frameHeaderLen
 
 		case FrameCommit:
 			// The payload is not the length field in this case!
-			prevCommit = finalCommit
-			finalCommit = &commitInfo{
+			commits = append(commits, commitInfo{
 				fh:         fh,
 				offset:     offset,
-				crcStart:   0,            // First commit includes the file header
+				crcStart:   crcStart,
 				offsetsLen: len(offsets), // Track how many entries were found up to this commit point.
-			}
-			if prevCommit != nil {
-				finalCommit.crcStart = prevCommit.offset + frameHeaderLen
-			}
+				indexStart: pendingIndexStart,
+			})
+			crcStart = offset + frameHeaderLen
+			pendingIndexStart = 0
 		}
 		return true, nil
 	})
@@ -160,80 +169,96 @@ func (w *Writer) recoverTail() error {
 		return err
 	}
 
-	if finalCommit == nil {
-		// There were no commit frames found at all. This segment file is
+	// Find the last commit whose batch made it to disk completely. Anything after
+	// it is either a torn write that was never acknowledged or stale bytes left
+	// behind by an earlier torn write, neither of which may be trusted: the
+	// frames we read after a commit are not proof that the commit itself is
+	// intact.
+	var accepted *commitInfo
+	for i := len(commits) - 1; i >= 0; i-- {
+		c := commits[i]
+		// We know bufLen can't be bigger than the whole segment file because none
+		// of the values were read from the data just from the offsets we moved
+		// through.
+		batchBuf := make([]byte, c.offset-c.crcStart)
+		if _, err := w.wf.ReadAt(batchBuf, c.crcStart); err != nil {
+			return fmt.Errorf("failed to read committed batch for CRC validation: %w", err)
+		}
+		if crc32.Checksum(batchBuf, castagnoliTable) == c.fh.crc {
+			accepted = &commits[i]
+			break
+		}
+	}
+
+	if accepted == nil {
+		// There were no (intact) commit frames found at all. This segment file is
 		// effectively empty. Init it that way ready for appending. This overwrites
 		// the file header so it doesn't matter if it was valid or not.
-		return w.initEmpty()
-	}
-
-	// Assume that the final commit is good for now and set the writer state
-	w.writer.writeOffset = uint32(finalCommit.offset + frameHeaderLen)
-
-	// Just store what we have for now to ensure the defer doesn't panic we'll
-	// probably update this below.
-	w.offsets.Store(offsets)
-
-	// Whichever path we take, fix up the commitIdx before we leave
-	defer func() {
-		ofs := w.getOffsets()
-		if len(ofs) > 0 {
-			// Non atomic is OK because this file is not visible to any other threads
-			// yet.
-			w.commitIdx = w.info.BaseIndex + uint64(len(ofs)) - 1
+		if err := w.initEmpty(); err != nil {
+			return err
 		}
-	}()
-
-	if finalCommit.offsetsLen < len(offsets) {
-		// Some entries were found after the last commit. Those must be a partial
-		// write that was uncommitted so can be ignored. But the fact they were
-		// written at all means that the last commit frame must have been completed
-		// and acknowledged so we don't need to verify anything. Just truncate the
-		// extra entries from index and reset the write cursor to continue appending
-		// after the last commit.
-		offsets = offsets[:finalCommit.offsetsLen]
-		w.offsets.Store(offsets)
-
-		// Since at least one commit was found, the header better be valid!
-		return validateFileHeader(*readInfo, w.info)
+		return w.clearStaleTail()
 	}
 
-	// Last frame was a commit frame! Let's check that all the data written in
-	// that commit frame made it to disk.
-	// Verify the length first
-	bufLen := finalCommit.offset - finalCommit.crcStart
-	// We know bufLen can't be bigger than the whole segment file because none of
-	// the values above were read from the data just from the offsets we moved
-	// through.
-	batchBuf := make([]byte, bufLen)
-
-	if _, err := w.wf.ReadAt(batchBuf, finalCommit.crcStart); err != nil {
-		return fmt.Errorf("failed to read last committed batch for CRC validation: %w", err)
-	}
-
-	gotCrc := crc32.Checksum(batchBuf, castagnoliTable)
-	if gotCrc == finalCommit.fh.crc {
-		// All is good. We already setup the state we need for writer other than
-		// offsets.
-		w.offsets.Store(offsets)
-
-		// Since at least one commit was found, the header better be valid!
-		return validateFileHeader(*readInfo, w.info)
-	}
-
-	// Last commit was incomplete rewind back to the previous one or start of file
-	if prevCommit == nil {
-		// Init wil re-write the file header so it doesn't matter if it was corrupt
-		// or not!
-		return w.initEmpty()
-	}
-
-	w.writer.writeOffset = uint32(prevCommit.offset + frameHeaderLen)
-	offsets = offsets[:prevCommit.offsetsLen]
+	w.writer.writeOffset = uint32(accepted.offset + frameHeaderLen)
+	w.writer.indexStart = accepted.indexStart
+	offsets = offsets[:accepted.offsetsLen]
 	w.offsets.Store(offsets)
+	if len(offsets) > 0 {
+		// Non atomic is OK because this file is not visible to any other threads
+		// yet.
+		w.commitIdx = w.info.BaseIndex + uint64(len(offsets)) - 1
+	}
 
 	// Since at least one commit was found, the header better be valid!
-	return validateFileHeader(*readInfo, w.info)
+	if err := validateFileHeader(*readInfo, w.info); err != nil {
+		return err
+	}
+	return w.clearStaleTail()
+}
+
+// clearStaleTail zeroes whatever is left in the file after the recovered write
+// offset. Bytes can be left there by a torn write that recovery discarded. They
+// must not stay: the next append overwrites only as many of them as it needs,
+// and after another crash the remainder would be read as frames following the
+// new tail.
+func (w *Writer) clearStaleTail() error {
+	buf := make([]byte, minBufSize)
+	start := int64(w.writer.writeOffset)
+	staleEnd := int64(-1)
+	for off := start; ; {
+		n, err := w.wf.ReadAt(buf, off)
+		for i := n - 1; i >= 0; i-- {
+			if buf[i] != 0 {
+				staleEnd = off + int64(i) + 1
+				break
+			}
+		}
+		if err == io.EOF || n == 0 {
+			break
+		}
+		if err != nil {
+			return fmt.Errorf("failed reading after the recovered tail: %w", err)
+		}
+		off += int64(n)
+	}
+	if staleEnd < 0 {
+		return nil
+	}
+	for i := range buf {
+		buf[i] = 0
+	}
+	for off := start; off < staleEnd; {
+		n := int64(len(buf))
+		if staleEnd-off < n {
+			n = staleEnd - off
+		}
+		if _, err := w.wf.WriteAt(buf[:n], off); err != nil {
+			return err
+		}
+		off += n
+	}
+	return w.wf.Sync()
 }
 
 // Close implements io.Closer
